@@ -96,6 +96,16 @@ class EngineLineDetectorSimple(object):
                         baselines_list.append(np.round(np.asarray(list(region.intersection(line).coords[:]))).astype(np.int16))
                         heights_list.append([baseline_coord-yb1, yb2-baseline_coord])
 
-        textlines_list = [helpers.baseline_to_textline(baseline, heights) for baseline, heights in zip(baselines_list, heights_list)]
+        textlines_list = []
+        for baseline, heights in zip(baselines_list, heights_list):
+            textline = helpers.baseline_to_textline(baseline, heights)
+            textline_shpl = shapely.geometry.Polygon(textline)
+            if region.is_valid and textline_shpl.is_valid:  # keep the outline inside the region, as assign_lines_to_regions does
+                textline_is = region.intersection(textline_shpl)
+                if textline_is.geom_type == 'MultiPolygon':
+                    textline_is = max(textline_is.geoms, key=lambda polygon: polygon.area)
+                if textline_is.geom_type == 'Polygon' and not textline_is.is_empty:
+                    textline = np.asarray(textline_is.exterior.coords)
+            textlines_list.append(textline)
 
         return baselines_list, heights_list, textlines_list
